@@ -67,6 +67,11 @@ CHECKS = {
             "The firmware trace of each generated script is checked by monitors: prologue markers exactly once in order before pass 0, body markers once per pass in order with counters continuing, every device-owned pin configured (right mode, in setup, never changed) before first use, servo attached / LCD begun / Serial begun / motor safely stopped before use, exactly one button sample per pass and all injected housekeeping before the first user statement without delay, and main-loop `break` rejected.",
             "Mock core as observation device; general persistence of values across passes is additionally covered by C01's differential.",
             "DESIGN.md 3/C05"),
+    "C09": ("exploration",
+            "generated list/str programs (IndexError-free by construction and confirmed by the CPython run) built with clang AddressSanitizer+UBSan against the mock core; oracles: no sanitizer report, and heap-bytes equality across passes whenever the Python program's live data is constant",
+            "Every generated program is compiled with -fsanitize=address,undefined and run for 3 or 6 loop() passes; any sanitizer report is a violation, and the allocator's live byte count after consecutive passes (ASan allocator interface, sampled by the mock main) must be equal whenever the reference run's live data is equal.",
+            "Host ASan heap and the mock String stand in for the AVR heap; aliasing, parameter mutation and in-loop allocation are recorded findings excluded by construction.",
+            "DESIGN.md 3/C09"),
 }
 
 PENDING = {}
